@@ -72,10 +72,10 @@ func TestGRPCStreams(t *testing.T) {
 			}
 			return
 		}
-		if msg := streamcase.ClientToServer(d, s, meth, c, obs); msg != "" {
+		if msg := streamcase.ClientToServer(d, s, meth, c, obs); msg != "" && !streamcase.Skipped(msg) {
 			fail(msg)
 		}
-		if msg := streamcase.ServerToClient(d, s, meth, c, obs); msg != "" {
+		if msg := streamcase.ServerToClient(d, s, meth, c, obs); msg != "" && !streamcase.Skipped(msg) {
 			fail(msg)
 		}
 	})
@@ -103,10 +103,13 @@ func judgeStream(d *m.Design, s *m.Service, meth *m.Method, c *streamcase.Case, 
 		}
 		return ""
 	}
-	if msg := streamcase.ClientToServer(d, s, meth, c, obs); msg != "" {
+	if msg := streamcase.ClientToServer(d, s, meth, c, obs); msg != "" && !streamcase.Skipped(msg) {
 		return msg
 	}
-	return streamcase.ServerToClient(d, s, meth, c, obs)
+	if msg := streamcase.ServerToClient(d, s, meth, c, obs); !streamcase.Skipped(msg) {
+		return msg
+	}
+	return ""
 }
 
 // checkStreamMethod runs scripted calls of a streaming method of a generated design.
